@@ -156,7 +156,7 @@ def recount(segs, check_lx=False):
                 n_lx = 0
             elif check_lx and sid == 'LX':
                 n_lx += 1
-                if el(e, 1) != str(n_lx):
+                if toint(el(e, 1)) != n_lx:          # a number like the other counters: 01 is 1
                     d.append(('seg', 'LX'))
         per.append(sorted(d))
         exact.append(ex)
